@@ -147,3 +147,63 @@ Proof.
     + right. lia.
     + left. exact V.
 Qed.
+
+(* ---------- rule -> strptime format: every layout is translated item by item *)
+From CP Require Import Generated.Consts.
+
+Lemma translate_skip T a : forall rest, translate_go T (a ++ rest) (length a) = translate_go T rest 0.
+Proof. induction a as [|c a IH]; intros rest; cbn [app length translate_go]; [destruct rest; reflexivity|apply IH]. Qed.
+Lemma step_item T c k d rest : first_item T ((c :: k) ++ rest) = Some (c :: k, d) ->
+  translate_go T ((c :: k) ++ rest) 0 = d ++ translate_go T rest 0.
+Proof.
+  intros H. cbn [app translate_go]. cbn [app] in H. rewrite H.
+  replace (length (c :: k) - 1)%nat with (length k) by (cbn [length]; lia).
+  rewrite translate_skip. reflexivity.
+Qed.
+Lemma step_literal T c rest : first_item T (c :: rest) = None -> translate_go T (c :: rest) 0 = c :: translate_go T rest 0.
+Proof. intros H. cbn [translate_go]. rewrite H. reflexivity. Qed.
+
+(* the text after an item does not start with Y unless the next item is a year *)
+Lemma next_not_year t rest : layout_ok (t :: rest) = true -> is_year t = true ->
+  match layout_text rest with 89%N :: _ => False | _ => True end.
+Proof.
+  intros H Hy. destruct rest as [|t2 rest2]; [exact I|]. cbn [layout_ok] in H.
+  apply andb_true_iff in H as [H H3]. apply andb_true_iff in H as [_ H2]. rewrite Hy in H2. cbn [andb] in H2.
+  cbn [layout_ok] in H3. apply andb_true_iff in H3 as [H3 _]. apply andb_true_iff in H3 as [H3 _].
+  destruct t2; cbn in H2; try discriminate; cbn; try exact I.
+  unfold lit_ok in H3. cbn [forallb] in H3. destruct c as [|p]; [exact I|].
+  destruct (N.eqb_spec 89 (N.pos p)) as [E|E]; [rewrite <- E in H3; cbn in H3; discriminate|].
+  destruct p; try exact I; cbn; repeat (match goal with |- match ?x with _ => _ end => destruct x end); try exact I; exfalso; apply E; reflexivity.
+Qed.
+
+Theorem translate_layout l : layout_ok l = true -> strptime_format (layout_text l) = layout_directives l.
+Proof.
+  unfold strptime_format. induction l as [|t rest IH]; intros Hok; [reflexivity|].
+  assert (layout_ok rest = true) as Hrest by (cbn [layout_ok] in Hok; apply andb_true_iff in Hok; tauto).
+  unfold layout_text, layout_directives in *. cbn [flat_map]. fold (layout_text rest). fold (layout_directives rest).
+  specialize (IH Hrest). fold (layout_text rest) in IH. fold (layout_directives rest) in IH.
+  destruct t; cbn [ltok_text ltok_directive].
+  - rewrite (step_item _ _ _ [37; 100]%N) by reflexivity. rewrite IH. reflexivity.
+  - rewrite (step_item _ _ _ [37; 109]%N) by reflexivity. rewrite IH. reflexivity.
+  - rewrite (step_item _ _ _ [37; 89]%N) by reflexivity. rewrite IH. reflexivity.
+  - (* YY: the item YYYY comes first in the table and must not match *)
+    pose proof (next_not_year LYear2 rest Hok eq_refl) as Hn.
+    assert (first_item HUMAN_READABLE_TO_STRPTIME ([89; 89]%N ++ layout_text rest) = Some ([89; 89]%N, [37; 121]%N)) as F.
+    { cbn [app]. unfold HUMAN_READABLE_TO_STRPTIME. cbn [first_item prefix_b].
+      change (N.eqb 37 89) with false. change (N.eqb 68 89) with false. change (N.eqb 77 89) with false.
+      change (N.eqb 89 89) with true. cbn [andb].
+      remember (layout_text rest) as lt eqn:Elt. destruct lt as [|c r]; [reflexivity|].
+      destruct (N.eqb 89 c) eqn:E; [apply N.eqb_eq in E; subst c; contradiction|]. cbn [andb]. reflexivity. }
+    rewrite (step_item _ _ _ [37; 121]%N _ F). rewrite IH. reflexivity.
+  - rewrite (step_item _ _ _ [37; 72]%N) by reflexivity. rewrite IH. reflexivity.
+  - rewrite (step_item _ _ _ [37; 77]%N) by reflexivity. rewrite IH. reflexivity.
+  - rewrite (step_item _ _ _ [37; 83]%N) by reflexivity. rewrite IH. reflexivity.
+  - rewrite (step_item _ _ _ [37; 37]%N) by reflexivity. rewrite IH. reflexivity.
+  - (* a literal character starts none of the items *)
+    cbn [layout_ok] in Hok. apply andb_true_iff in Hok as [Hok _]. apply andb_true_iff in Hok as [Hl _].
+    unfold lit_ok in Hl. cbn [forallb] in Hl. repeat (apply andb_true_iff in Hl as [? Hl]).
+    cbn [app]. rewrite step_literal; [rewrite IH; reflexivity|].
+    unfold HUMAN_READABLE_TO_STRPTIME. cbn [first_item prefix_b].
+    repeat match goal with H : negb (N.eqb ?k c) = true |- _ => apply negb_true_iff in H; rewrite H; clear H end.
+    reflexivity.
+Qed.
